@@ -286,7 +286,7 @@ class Api:
         self.deferred = collections.defaultdict(list)
         self.probed = collections.Counter()
         self.leak_probes = collections.Counter()
-        self.timing = []
+        self.timing = collections.OrderedDict()
         self.leak_confirmed = collections.Counter()
         self.t_spent = 0.0
 
@@ -320,7 +320,8 @@ class Api:
                 results = list(ex.map(self._run, chunks))
         for res in results:
             self._batch(res, tag)
-        self.timing.append("%s: %d requests, %d aborts, %.1fs" % (tag, len(cases), self.crashes - c0, time.time() - t0))
+        a = self.timing.setdefault(tag, [0, 0, 0.0])
+        a[0] += len(cases); a[1] += self.crashes - c0; a[2] += time.time() - t0
 
     def _batch(self, res, tag):
         cx = self.cx
@@ -454,15 +455,24 @@ class Api:
                 {"line": culprit, "window_len": at - lo, "law": "leak", "stderr": ""})
 
     # -- known-crash shapes: run a few, defer the rest
-    def feed(self, cases, tag, batch=6000):
-        keep = []
-        for c in cases:
-            fid = suspect(c)
-            if fid is not None:
-                self.deferred[fid].append(c)
-            else:
-                keep.append(c)
-        self.run(keep, tag, batch)
+    def feed(self, cases, tag, batch=4000):
+        """consume an iterator of cases in chunks (bounded memory), holding back the known-crash shapes"""
+        it = iter(cases)
+        while True:
+            chunk = list(itertools.islice(it, batch * WORKERS * 3))
+            if not chunk:
+                break
+            keep = []
+            for c in chunk:
+                fid = suspect(c)
+                if fid is not None:
+                    if len(self.deferred[fid]) < 2000:
+                        self.deferred[fid].append(c)
+                    else:
+                        self.cx.dist["skipped-known-crash-shape:" + fid] += 1
+                else:
+                    keep.append(c)
+            self.run(keep, tag, batch)
 
     def flush_deferred(self):
         cx = self.cx
@@ -520,46 +530,55 @@ def run_api(cx):
     thorough = cx.tier == "thorough"
     counter = itertools.count(1)
     L = cx.n(3, 4)
-    cx.rule("fuzz: exhaustive token sequences of length <= %d over the micro-grammar of every argument kind (range, length, derived ranges, if-feature, "
+    cx.rule("fuzz: exhaustive token sequences of length <= %d (token sets of more than 16 tokens: one less, plus sampled longer sequences in the thorough tier) over the micro-grammar of every argument kind (range, length, derived ranges, if-feature, "
             "must, when, leafref path, unique, bits/enum/int/dec64 default, pattern, key, augment/deviation target, numeric arguments, identifiers, "
             "quoted strings, statements, YIN arguments/elements, XPath on data and schema, data paths, predicates, JSON members, XML elements, "
             "number lexicals, UTF-8 sequences, JSON numbers), boundary value pool x every leaf type, structure-aware and raw mutations of the "
             "seeds (tests/fuzz/corpus, tests/modules/yang, own YANG/YIN/XML/JSON/RPC/notification/NETCONF/RESTCONF documents) through every "
             "parser/validation option set; non-trivial = distinct input accepted, or distinct (entry point, error code, message shape)" % L)
 
-    # --- micro-grammars: schema side
-    small = {k: L for k in list(G.SCHEMA_KINDS) + list(G.RAW_KINDS) + list(G.YIN_KINDS)}
-    for k in ("must", "when", "pattern", "qstring", "statement", "yin-elem"):       # > 20 tokens: one level less in the quick tier
-        small[k] = L if thorough else L - 1
+    # --- micro-grammars: schema side.  Exhaustive up to length L for token sets of at most 16 tokens; the bigger sets one
+    # level less (quick: `must` stays at 3, the F30/F32-style defects sat there) plus, in the thorough tier, a sample of length-L/L+1 sequences
+    ntok = {k: len(v[1]) for d in (G.SCHEMA_KINDS, G.RAW_KINDS, G.YIN_KINDS) for k, v in d.items()}
+    small = {k: (L if n <= 16 else L - 1) for k, n in ntok.items()}
     if not thorough:
-        for k in ("must",):
-            small[k] = L         # the F32/F30-style defects sat at length 3
+        small["must"] = L
     api.feed(G.schema_micro(None, small, counter), "micro-schema")
+    if thorough:
+        api.feed(G.schema_micro_sample(rng, [k for k, n in ntok.items() if n > 16], (L, L + 1), 60000, counter), "micro-schema-sampled")
 
     # --- micro-grammars: data side
-    api.feed(G.xpath_micro(L if thorough else L - 1), "micro-xpath")
-    if not thorough:
-        # length-3 XPath sequences: every one over the function/axis/root tokens, a sample of the rest
-        toks = [G.b(t) for t in G.T_XPATH]
-        sel = [G.b(t) for t in ("/", "(", ")", "deref(", "string(", "floor(", "enum-value(", "bit-is-set(", ",'a')", "100000000000000000000", "current()",
-                                 ".", "[", "]", "count(", "not(", "-", "|", "//", "*", " div ", "0", "/fz:t/bi", "re-match(", ",", "'a'")]
-        api.feed((c for e in G.seqs(sel, 3) if len(e) and e.count(b"(") >= 0
-                  for c in (G.case("xpath eval %s" % hexs(e), "lyd_eval_xpath4", "micro:xpath", e, e),
-                            G.case("xpath sfind %s" % hexs(e), "lys_find_xpath", "micro:xpath", e, e))
-                  if True), "micro-xpath3")
-    api.feed(G.path_micro(L if thorough else L - 1), "micro-path")
-    api.feed(G.fragment_micro(L), "micro-fragments")
-    api.feed(G.lexical_micro(2, 3 if not thorough else 4), "micro-lexical")
+    api.feed(G.xpath_micro(L - 1), "micro-xpath")
+    # longer XPath sequences: every one over the function/axis/root tokens
+    sel = [G.b(t) for t in ("/", "(", ")", "deref(", "string(", "floor(", "enum-value(", "bit-is-set(", ",'a')", "100000000000000000000", "current()",
+                             ".", "[", "]", "count(", "not(", "-", "|", "//", "*", " div ", "0", "/fz:t/bi", "re-match(", ",", "'a'")]
+    api.feed((c for e in G.seqs(sel if not thorough else sel[:18], L)
+              for c in (G.case("xpath eval %s" % hexs(e), "lyd_eval_xpath4", "micro:xpath", e, e),
+                        G.case("xpath sfind %s" % hexs(e), "lys_find_xpath", "micro:xpath", e, e))), "micro-xpath-long")
+    if thorough:
+        xt = [G.b(t) for t in G.T_XPATH]
+        api.feed((G.case("xpath %s %s" % (w, hexs(e)), ent, "micro:xpath-sampled", e, e)
+                  for e in (b"".join(rng.choice(xt) for _ in range(rng.choice((3, 4, 5, 6)))) for _ in range(400000))
+                  for w, ent in (("find", "lyd_find_xpath"), ("eval1", "lyd_eval_xpath4"), ("satoms", "lys_find_xpath_atoms"))), "micro-xpath-sampled")
+    api.feed(G.path_micro(L - 1), "micro-path")
+    api.feed(G.fragment_micro(L if not thorough else L - 1), "micro-fragments")
+    if thorough:
+        tj, tx = [G.b(t) for t in G.T_JSON], [G.b(t) for t in G.T_XML]
+        api.feed((G.data_case("json", b'{"fz:c":{' + f + b'}}', "micro:json-members-sampled", f, G.P_OPAQ, G.V_PRESENT)
+                  for f in (b"".join(rng.choice(tj) for _ in range(rng.choice((4, 5, 6, 8)))) for _ in range(200000))), "micro-fragments-sampled")
+        api.feed((G.data_case("xml", b'<c xmlns="urn:fz">' + f + b'</c>', "micro:xml-elements-sampled", f, G.P_OPAQ | G.P_ONLY, 0)
+                  for f in (b"".join(rng.choice(tx) for _ in range(rng.choice((4, 5, 6, 8)))) for _ in range(200000))), "micro-fragments-sampled")
+    api.feed(G.lexical_micro(2, 3), "micro-lexical")
     api.feed(G.utf8_micro(L), "micro-utf8")
     nums = list(dict.fromkeys(G.json_numbers(full=thorough)))
     api.feed((G.case("opaq json %s" % hexs(t), "lyd_parse_data_mem.json", "micro:json-number", G.b(t), G.b(t)) for t in nums), "micro-jsonnum")
     api.feed((G.data_case("json", b'{"fz:t":{"' + leaf + b'":' + G.b(t) + b'}}', "micro:json-number-typed", G.b(t), G.P_STRICT, G.V_PRESENT)
               for t in nums[::(1 if thorough else 7)] for leaf in (b"d2", b"i32", b"u8")), "micro-jsonnum-typed")
-    api.feed(G.value_cases(rng, cx.n(4000, 100000)), "values")
+    api.feed(G.value_cases(rng, cx.n(4000, 150000)), "values")
 
     # --- patterns through ly_pattern_compile
     ptoks = [G.b(t) for t in G.SCHEMA_KINDS["pattern"][1]]
-    api.feed((G.case("pattern %s %s" % (hexs(p), hexs("ab")), "ly_pattern_compile", "micro:pattern", p, p) for p in G.seqs(ptoks, L if thorough else L - 1)), "micro-pattern")
+    api.feed((G.case("pattern %s %s" % (hexs(p), hexs("ab")), "ly_pattern_compile", "micro:pattern", p, p) for p in G.seqs(ptoks, L - 1)), "micro-pattern")
 
     # --- seeds and mutations
     seeds = G.load_seeds(paths.REPO)
@@ -621,7 +640,7 @@ def run_api(cx):
 
     lexer_outcomes(cx, api)
     cx.notes.append("api_fuzz input distribution per entry point: " + json.dumps(api.report(), sort_keys=True))
-    cx.notes.append("api_fuzz: %d harness aborts handled, %.1f s in the harness; %s" % (api.crashes, api.t_spent, "; ".join(api.timing)))
+    cx.notes.append("api_fuzz: %d harness aborts handled, %.1f s in the harness; %s" % (api.crashes, api.t_spent, "; ".join("%s: %d requests, %d aborts, %.1fs" % (k, v[0], v[1], v[2]) for k, v in api.timing.items())))
 
 
 def lexer_outcomes(cx, api):
